@@ -1087,6 +1087,64 @@ theorem KsTwoAsymptotic_supports_iff (d : Gen.KsTwoAsymptotic X) (x : X) :
 example : Gen.KsTwoAsymptotic.supports_real (⟨⟩ : Gen.KsTwoAsymptotic X) (fin 4.33) = true :=
   (KsTwoAsymptotic_supports_iff _ _).mpr ⟨4.33, by norm_num, rfl⟩
 
+-- @site Mixture.draw
+/-- TOTALITY of the index draw: for EVERY generator word, non-negative weights with positive sum and as many components as
+    weights, `Mixture::draw` selects a component inside the vector (`pflips` scales the variate by the ACTUAL cumulative sum
+    — `C13.pflips_every_word`) and returns its draw; no panic.  (A variant that assumes the total `1.0` panics at the top
+    variate when the rounded sum is below 1, e.g. `[1/6; 6]`, `[0.1; 10]`: covered by the scripted lines of props/cases_c04.py.) -/
+theorem Mixture_draw_total (fma : R → R → R → R) (weights : List R) (comps : List (Gen.Laplace R))
+    (hw : ∀ w ∈ weights, 0 ≤ w.val) (hS : 0 < (weights.map R.val).sum) (hl : C13.FuelOK weights.length)
+    (hc : comps.length = weights.length) (w0 w1 : Nat) (hw0 : w0 < 2 ^ 64) :
+    ∃ x, mixtureLaplaceDrawWith fma weights comps w0 w1 = some x := by
+  obtain ⟨i, hi, hlt, _⟩ := C13.pflips_every_word weights hw hS hl w0 hw0
+  unfold mixtureLaplaceDrawWith
+  rw [hi]
+  have : i < comps.length := by omega
+  simp [List.getElem?_eq_getElem this]
+
+example : ∃ x, mixtureLaplaceDrawWith mulAdd [(⟨1/3⟩ : R), ⟨1/3⟩, ⟨1/3⟩] [⟨⟨0⟩, ⟨1⟩⟩, ⟨⟨1⟩, ⟨1⟩⟩, ⟨⟨2⟩, ⟨1⟩⟩] (2 ^ 64 - 1) 5 = some x :=
+  Mixture_draw_total _ _ _ (by intro w hw; simp at hw; rw [hw]; norm_num) (by norm_num)
+    (C13.length_lt_fuel _ (by simp)) rfl _ _ (by norm_num)
+
+/-! ## ConjugateModel -/
+
+-- @site ConjugateModel.sample
+/-- the separate `sample` threads the SAME per-element function as `draw` (posterior draw, then likelihood draw) over the word
+    stream: `sample(n)` is `n` successive `draw`s from the same generator state, for every prior / likelihood sampler
+    (tested seed for seed on the real code by `cmseq.*`) -/
+theorem ConjugateModel_sample_eq_iter_draw {θ β : Type} (postDraw : Nat → Outcome θ) (likDraw : θ → Nat → Outcome β) (n : Nat) :
+    conjugateSample postDraw likDraw n = iterDraws (conjugateDraw postDraw likDraw) n 0 := rfl
+
+example : conjugateSample (fun i => Outcome.ok (i : Nat) (i + 1)) (fun t j => Outcome.ok (t + j) (j + 1)) 1 = .ok [1] 2 := rfl
+
+-- @site ConjugateModel.sample
+/-- in particular every element gets a FRESH likelihood parameter: the two elements of `sample(2)` of a Bernoulli likelihood
+    are drawn with the parameters of two successive posterior draws (a shared parameter would make them dependent:
+    `P(x₀ = x₁) = E[θ² + (1−θ)²]` instead of `p̄² + (1−p̄)²` — the joint-law test of props/cases_c04.py) -/
+theorem ConjugateModel_sample_two_fresh {α : Type} [RealLike α] (postDraw : Nat → Outcome α) (ws : List Nat)
+    (t1 t2 : α) (j1 j2 : Nat) (h1 : postDraw 0 = .ok t1 j1) (h2 : postDraw (j1 + 1) = .ok t2 j2) :
+    conjugateSample postDraw (bernoulliLik ws) 2 =
+      .ok [bernoulliDraw ⟨t1⟩ (open01 (wordAt ws j1)), bernoulliDraw ⟨t2⟩ (open01 (wordAt ws j2))] (j2 + 1) := by
+  simp [conjugateSample, iterDraws, bernoulliLik, h1, h2]
+
+example : conjugateSample (fun i => Outcome.ok (⟨(i : ℝ) / 10⟩ : R) (i + 1)) (bernoulliLik [0, 1, 2, 3]) 2 =
+    .ok [bernoulliDraw (⟨⟨((0 : Nat) : ℝ) / 10⟩⟩ : Gen.Bernoulli R) (open01 (wordAt [0, 1, 2, 3] 1)),
+      bernoulliDraw (⟨⟨((2 : Nat) : ℝ) / 10⟩⟩ : Gen.Bernoulli R) (open01 (wordAt [0, 1, 2, 3] 3))] 4 :=
+  ConjugateModel_sample_two_fresh _ _ _ _ 1 3 rfl rfl
+
+-- @site UnitPowerLaw.draw
+/-- after `set_alpha_unchecked` (and `set_alpha`) the draw uses the NEW exponent `1/α` (the `alpha_inv` cache is reset by the
+    setter, unit_powerlaw.rs:176-180: in the generated model the cache getter is inlined); tied to the code by the history
+    lines `hist.UnitPowerLaw` of the correspondence run -/
+theorem UnitPowerLaw_draw_after_set_alpha (d : Gen.UnitPowerLaw R) (a u : R) :
+    (unitPowerLawDraw (Gen.UnitPowerLaw.set_alpha_unchecked d a) u).val = u.val ^ (1 / a.val) := by
+  have := C12.UnitPowerLaw_invcdf_val (Gen.UnitPowerLaw.set_alpha_unchecked d a) u
+  simpa [unitPowerLawDraw, Gen.UnitPowerLaw.set_alpha_unchecked] using this
+
+example : (unitPowerLawDraw (Gen.UnitPowerLaw.set_alpha_unchecked (⟨⟨0.5⟩⟩ : Gen.UnitPowerLaw R) ⟨6⟩) ⟨0.25⟩).val = (0.25 : ℝ) ^ (1 / (6 : ℝ)) := by
+  have := UnitPowerLaw_draw_after_set_alpha (⟨⟨0.5⟩⟩ : Gen.UnitPowerLaw R) ⟨6⟩ ⟨0.25⟩
+  simpa using this
+
 end C04
 
 #print axioms C04.Bernoulli_draw_iff
@@ -1139,3 +1197,7 @@ end C04
 #print axioms C04.Mixture_sample_one
 #print axioms C04.Mixture_sample_two
 #print axioms C04.KsTwoAsymptotic_supports_iff
+#print axioms C04.Mixture_draw_total
+#print axioms C04.ConjugateModel_sample_eq_iter_draw
+#print axioms C04.ConjugateModel_sample_two_fresh
+#print axioms C04.UnitPowerLaw_draw_after_set_alpha
